@@ -258,6 +258,13 @@ def _delta_arrays(ctx):
     from ..idioms import check_delta_arrays
     check_delta_arrays(ctx, ["bionumpy.encoded_array", "bionumpy.io.strops", "bionumpy.string_array", "bionumpy.util.ragged_slice"], "C07-R9")
 
+
+def _round7_index_and_codes(ctx):
+    from ..idioms import check_index_casts
+    from .round7 import set_data_range_raw
+    check_index_casts(ctx, ["bionumpy.encoded_array", "bionumpy.string_array"], "C07-R10")
+    set_data_range_raw(ctx, "C07-R10")
+
 RULES = [
     ("C07-R1", r1_encoding_preserved),
     ("C07-R2", r2_operands_encoded),
@@ -270,4 +277,5 @@ RULES = [
     ("C07-R7", _retarget_and_shapes),
     ("C07-R8", _join_split),
     ("C07-R9", _delta_arrays),
+    ("C07-R10", _round7_index_and_codes),
 ]
